@@ -115,13 +115,15 @@ def filter_ops(t):
     return 1 + sum(filter_ops(x) for x in t[1:])
 
 
-ITEM_KINDS = ["lit", "string", "cstr", "int", "double", "char", "call_s", "call_c", "call_obj", "failbit"]
+ITEM_KINDS = ["lit", "string", "cstr", "int", "double", "char", "call_s", "call_c", "call_obj", "failbit",
+              "chararr", "call_mut"]
 
 
 def gen_item(rng, uid, callable_bias):
-    w = [3, 2, 2, 2, 1, 1] + [callable_bias, callable_bias * 0.6, callable_bias * 0.6] + [0.25]
+    w = [3, 2, 2, 2, 1, 1] + [callable_bias, callable_bias * 0.6, callable_bias * 0.6] + [0.25] + \
+        [0.8, callable_bias * 0.3]
     kind = rng.choices(ITEM_KINDS, weights=w)[0]
-    if kind in ("lit", "string", "cstr"):
+    if kind in ("lit", "string", "cstr", "chararr"):
         text = rng.choice(["a", "msg", "x y", "", "{}", "[t]", "0", "T|F", "end."]) + str(uid % 7)
         return {"kind": kind, "text": text}
     if kind == "int":
@@ -168,6 +170,17 @@ def gen_program(seed, prop):
                 uid += 1
                 inner["items"].append(gen_item(rng, uid, bias))
             s["inner"] = {"at": rng.randint(0, len(s["items"])), "stmt": inner}
+        # the tag comes from storage that is reused (1) or gone (2) once the stream object exists
+        if s["named"] and s["tag"] and rng.random() < 0.35:
+            s["tagbuf"] = rng.choice([1, 2])
+        # the statement completes while an exception is in flight: in a destructor run by stack
+        # unwinding (1), or a named stream object destroyed by unwinding (2)
+        if "inner" not in s and rng.random() < 0.12:
+            s["unwind"] = 2 if s["named"] and rng.random() < 0.5 else 1
+        # the runtime thresholds change while a named stream object is open: the statement was
+        # accepted or rejected when it began
+        if s["named"] and "inner" not in s and rng.random() < 0.2:
+            s["bump"] = True
         stmts.append(s)
     p["stmts"] = stmts
     return p
@@ -196,7 +209,13 @@ def item_cpp(it, k, j):
         return f"    char v{j} = '{it['text']}';\n", f"v{j}"
     if kind == "failbit":
         return f"    std::streambuf* v{j} = nullptr;\n", f"v{j}"
+    if kind == "chararr":
+        # a buffer that merely holds a C string shorter than itself
+        return f"    char v{j}[16] = {cstr(it['text'])};\n", f"v{j}"
     cid = it["cid"]
+    if kind == "call_mut":
+        return (f"    struct Fm{j} {{ int n = 0; std::string operator()() {{ ++n; ev(\"C{cid}\"); "
+                f"return {cstr(it['text'])}; }} }} fm{j};\n", f"fm{j}")
     if kind == "call_s":
         return "", f'[]() -> std::string {{ ev("C{cid}"); return {cstr(it["text"])}; }}'
     if kind == "call_c":
@@ -216,7 +235,7 @@ def program_cpp(p):
       "#include <nitro/log/filter/null_filter.hpp>\n#include <nitro/log/filter/or_filter.hpp>\n"
       "#include <nitro/log/filter/severity_filter.hpp>\n#include <nitro/log/log.hpp>\n"
       "#include <nitro/log/sink/sequence.hpp>\n"
-      "#include <cstdio>\n#include <streambuf>\n#include <string>\n#include <type_traits>\n#include <vector>\n")
+      "#include <cstdio>\n#include <cstring>\n#include <streambuf>\n#include <string>\n#include <type_traits>\n#include <vector>\n")
     a("static std::vector<std::string> trace;\nstatic void ev(const std::string& s) { trace.push_back(s); }\n")
     a("struct CountingClock { typedef long time_point; static long now() { static long t = 0; return ++t; } };\n")
     attrs = (["nitro::log::tag_attribute"] if p["has_tag"] else []) + \
@@ -253,8 +272,17 @@ def program_cpp(p):
             a(f"static_assert(std::is_same<decltype(L::{name}()), nitro::log::detail::smart_stream<Record, Fmt, "
               f"{sink}, Filter, nitro::log::severity_level::{name}>>::value, \"smart_stream expected\");")
     a("")
+    nl0 = p["leaves"]
+    a("static int cur[4] = { 0, 0, 0, 0 };")
+    a("static void set_thresholds(int shift)\n{\n    (void)shift;")
+    for i in range(nl0):
+        a(f"    nitro::log::filter::severity_filter<Record, {i}>::set_severity("
+          f"static_cast<nitro::log::severity_level>((cur[{i}] + shift) % 6));")
+    a("}\n")
     for k, s in enumerate(p["stmts"]):
         a(f"static void stmt_{k}()\n{{")
+        if s.get("unwind") == 1:
+            a("    struct Guard\n    {\n    ~Guard()\n    {")
         decls, exprs = "", []
         for j, it in enumerate(s["items"]):
             d, e = item_cpp(it, k, j)
@@ -274,9 +302,18 @@ def program_cpp(p):
             a(decls.rstrip("\n"))
         tag = "" if s["tag"] is None else cstr(s["tag"])
         call = f"L::{SEV[s['sev']]}({tag})"
+        if s.get("tagbuf") == 1:
+            a(f"    char tagbuf[24] = {tag};")
+            call = f"L::{SEV[s['sev']]}(tagbuf)"
+        elif s.get("tagbuf") == 2:
+            call = f"L::{SEV[s['sev']]}(std::string({tag}) + std::string())"
         if s["named"]:
-            a("    {")
+            a("    try {" if s.get("unwind") == 2 else "    {")
             a(f"        auto log = {call};")
+            if s.get("tagbuf") == 1:
+                a('        std::strcpy(tagbuf, "overwritten");')
+            if s.get("bump"):
+                a("        set_thresholds(3);")
             a(f'        ev("M{k}.0");')
             if inner_line and s["inner"]["at"] == 0:
                 a(inner_line)
@@ -285,9 +322,16 @@ def program_cpp(p):
                 a(f'        ev("M{k}.{j + 1}");')
                 if inner_line and s["inner"]["at"] == j + 1:
                     a(inner_line)
-            a("    }")
+            if s.get("unwind") == 2:
+                a("        throw 1;\n    } catch (int) {}")
+            else:
+                a("    }")
+            if s.get("bump"):
+                a("    set_thresholds(0);")
         else:
             a("    " + " << ".join([call] + exprs) + ";")
+        if s.get("unwind") == 1:
+            a("    }\n    };\n    try { Guard g; throw 1; } catch (int) {}")
         a("}\n")
     a("// the decision of the real runtime filter for a record of that severity (C10 is stated relative to it)")
     settag = "r.tag() = tag; " if p["has_tag"] else "(void)tag; "
@@ -299,8 +343,8 @@ def program_cpp(p):
         a(f"    for (int t{i} = 0; t{i} < 6; ++t{i})")
     a("    {")
     for i in range(nl):
-        a(f"        nitro::log::filter::severity_filter<Record, {i}>::set_severity("
-          f"static_cast<nitro::log::severity_level>(t{i}));")
+        a(f"        cur[{i}] = t{i};")
+    a("        set_thresholds(0);")
     a('        std::printf("T' + " %d" * nl + '\\n"' + "".join(f", t{i}" for i in range(nl)) + ");")
     for k in range(len(p["stmts"])):
         st_k = p['stmts'][k]
@@ -464,6 +508,12 @@ def check_program(p, src_root, workdir, name, stats=None):
                     stats["classes"]["form:named-object"] += 1
                 if s.get("inner"):
                     stats["classes"]["form:statement-inside-open-named-stream"] += 1
+                if s.get("tagbuf"):
+                    stats["classes"]["tag:storage-reused-while-stream-open"] += 1
+                if s.get("unwind"):
+                    stats["classes"]["form:completes-during-stack-unwinding"] += 1
+                if s.get("bump"):
+                    stats["classes"]["thresholds-change-while-stream-open"] += 1
                 if ncall:
                     stats["classes"]["has-callable"] += 1
                 if nontrivial:
@@ -546,7 +596,10 @@ def main():
     stats = {"evaluations": 0, "nontrivial_total": 0, "failures": 0, "fps": set(), "samples": [],
              "classes": {"enabled": 0, "disabled:compile-time": 0, "disabled:runtime": 0,
                          "form:named-object": 0, "has-callable": 0, "programs": 0,
-                         "form:statement-inside-open-named-stream": 0}}
+                         "form:statement-inside-open-named-stream": 0,
+                         "tag:storage-reused-while-stream-open": 0,
+                         "form:completes-during-stack-unwinding": 0,
+                         "thresholds-change-while-stream-open": 0}}
     wd = os.path.join(args.workdir, "logprog-%s-%d" % (args.prop, args.seed))
     failures = []
 
